@@ -95,6 +95,8 @@ def parse_grammar_text(text, start_hint=None):
     rules = []
     props = {}
     conds = {}
+    params = {}
+    parametric = set()
     cur = None
     first = None
     for line in text.splitlines():
@@ -109,10 +111,26 @@ def parse_grammar_text(text, start_hint=None):
         lhs = cur
         if lhs.endswith("::_"):
             lhs = lhs[:-3]
+            parametric.add(lhs)
         if first is None:
             first = lhs
+        # a condition may contain spaces ("ge(_, 0x2)"): cut it out before tokenising
+        cond_txt = None
+        if "%if" in right:
+            right, rest = right.split("%if", 1)
+            ptoks = rest.split()
+            keep = []
+            tailp = []
+            for t_ in ptoks:
+                if t_.startswith(PROP_TOKENS):
+                    tailp.append(t_)
+                else:
+                    keep.append(t_)
+            cond_txt = " ".join(keep)
+            right = right + " " + " ".join(tailp)
         toks = right.split()
         rhs = []
+        rparams = []
         cond = None
         pr = []
         special_terminal_line = False
@@ -138,12 +156,14 @@ def parse_grammar_text(text, start_hint=None):
                 m = re.match(r"^\[(\d+)\](?:::(.*))?$", t)
                 if m:
                     rhs.append(("T", int(m.group(1))))
+                    rparams.append(None)
                 else:
                     nm = t
                     param = None
                     if "::" in nm:
                         nm, param = nm.split("::", 1)
                     rhs.append(("N", nm))
+                    rparams.append(param)
             i += 1
         if pr:
             props.setdefault(lhs, [])
@@ -153,10 +173,15 @@ def parse_grammar_text(text, start_hint=None):
         if special_terminal_line:
             continue
         rules.append((lhs, rhs))
+        if cond_txt:
+            cond = cond_txt
         if cond:
             conds[len(rules) - 1] = cond
+        params[len(rules) - 1] = rparams
     g = CFG(rules, start_hint or first or "start", props)
     g.conds = conds
+    g.params = params
+    g.parametric = parametric
     return g
 
 
@@ -353,3 +378,139 @@ def perturbed_twin(cfg, n_bound, fresh_terminal=99999):
             break
         cur = nxt[0]
     return None, False
+
+
+# ------------------------------------------------------------------ parametric grammars (docs/parametric.md), evaluated in Python
+M64 = (1 << 64) - 1
+
+
+def _pref(txt):
+    txt = txt.strip()
+    if txt == "_":
+        return 0, 64
+    m = re.match(r"^\[(\d+):(\d+)\]$", txt)
+    if not m:
+        raise ValueError("bad bit range %r" % txt)
+    return int(m.group(1)), int(m.group(2))
+
+
+def _field(p, x, y):
+    return (p >> x) & ((1 << (y - x)) - 1)
+
+
+def _num(txt):
+    txt = txt.strip()
+    return int(txt, 16) if txt.lower().startswith("0x") else int(txt)
+
+
+def _split_args(txt):
+    out, depth, cur = [], 0, ""
+    for ch in txt:
+        if ch in "([":
+            depth += 1
+        elif ch in ")]":
+            depth -= 1
+        if ch == "," and depth == 0:
+            out.append(cur)
+            cur = ""
+        else:
+            cur += ch
+    out.append(cur)
+    return [a.strip() for a in out]
+
+
+def eval_param_expr(txt, p):
+    """value passed to a referenced rule, by the documented meaning"""
+    txt = txt.strip()
+    if txt == "_":
+        return p
+    if txt == "null":
+        return 0
+    m = re.match(r"^(\w+)\((.*)\)$", txt)
+    if not m:
+        return _num(txt) & M64
+    f, a = m.group(1), m.group(2)
+    if f == "set_bit":
+        return p | (1 << int(a))
+    if f == "clear_bit":
+        return p & ~(1 << int(a)) & M64
+    if f == "bit_or":
+        return p | _num(a)
+    if f == "bit_and":
+        return p & _num(a)
+    if f in ("incr", "decr"):
+        x, y = _pref(a)
+        fld = _field(p, x, y)
+        if f == "incr":
+            return p if fld == (1 << (y - x)) - 1 else (p + (1 << x)) & M64
+        return p if fld == 0 else (p - (1 << x)) & M64
+    raise ValueError("unknown parameter expression %r" % txt)
+
+
+def eval_param_cond(txt, p):
+    txt = txt.strip()
+    if txt in ("true", "true()"):
+        return True
+    m = re.match(r"^(\w+)\((.*)\)$", txt)
+    if not m:
+        raise ValueError("bad condition %r" % txt)
+    f, a = m.group(1), _split_args(m.group(2))
+    if f == "and":
+        return eval_param_cond(a[0], p) and eval_param_cond(a[1], p)
+    if f == "or":
+        return eval_param_cond(a[0], p) or eval_param_cond(a[1], p)
+    if f == "not":
+        return not eval_param_cond(a[0], p)
+    if f == "bit_clear":
+        return (p >> int(a[0])) & 1 == 0
+    if f == "bit_set":
+        return (p >> int(a[0])) & 1 == 1
+    x, y = _pref(a[0])
+    fld = _field(p, x, y)
+    if f == "is_ones":
+        return fld == (1 << (y - x)) - 1
+    if f == "is_zeros":
+        return fld == 0
+    if f.startswith("bit_count_"):
+        c, k = bin(fld).count("1"), int(a[1])
+        return {"eq": c == k, "ne": c != k, "lt": c < k, "le": c <= k, "gt": c > k, "ge": c >= k}[f[len("bit_count_"):]]
+    v = _num(a[1])
+    return {"eq": fld == v, "ne": fld != v, "lt": fld < v, "le": fld <= v, "gt": fld > v, "ge": fld >= v}[f]
+
+
+def expand_parametric(cfg, max_states=400):
+    """ordinary CFG over (symbol, parameter value) pairs reachable from the start symbol. Raises ValueError when it does not close
+    within max_states."""
+    by = {}
+    for i, (l, r) in enumerate(cfg.rules):
+        by.setdefault(l, []).append(i)
+    parametric = getattr(cfg, "parametric", set())
+
+    def nm(sym, v):
+        return "%s@%x" % (sym, v) if sym in parametric else sym
+    start = (cfg.start, 0)
+    seen = {start}
+    todo = [start]
+    rules = []
+    while todo:
+        sym, v = todo.pop()
+        for i in by.get(sym, []):
+            l, r = cfg.rules[i]
+            cond = cfg.conds.get(i)
+            if cond and not eval_param_cond(cond, v):
+                continue
+            rhs = []
+            ps = cfg.params.get(i) or [None] * len(r)
+            for (k, x), pe in zip(r, ps):
+                if k == "T":
+                    rhs.append((k, x))
+                    continue
+                nv = eval_param_expr(pe, v) if (pe is not None and x in parametric) else 0
+                if (x, nv) not in seen:
+                    seen.add((x, nv))
+                    todo.append((x, nv))
+                    if len(seen) > max_states:
+                        raise ValueError("parametric expansion exceeds %d states" % max_states)
+                rhs.append(("N", nm(x, nv)))
+            rules.append((nm(sym, v), rhs))
+    return CFG(rules, nm(*start), cfg.props)
